@@ -12,7 +12,7 @@ MANIFEST = {
             "run are the documented LFSR; linear recurrence with the seed bits as virtual predecessors; minimal period exactly "
             "2^n-1 from every non-zero state for all seven orders (kernel-checked GF(2) matrix certificate + primality of every "
             "Mersenne factor, so all 2^31-1 states of PRBS31 are covered without enumeration); orbit = all non-zero states; "
-            "2^(n-1) ones per period; resume law for any split; seed normalisation and validation tables.  Tie: translator + "
+            "2^(n-1) ones and 2^(n-1)-1 zeros per period, only bits emitted; resume law for any split; seed normalisation and validation tables.  Tie: translator + "
             "exact differential run of the compiled model against PRBS() incl. resumed calls and full cycles.",
     "note": "Trusted: Lean kernel, translator tools/extractors/prbs.py (taps dict, 3 loop-body expressions, seed expressions), harness; "
             "Python int bit ops = Lean Nat bit ops; the `len` non-int TypeError branch is oracle-only. "
@@ -229,6 +229,10 @@ def oracle(case, res):
         ones = b[:N].count("1")
         if ones != 1 << (n - 1):
             v.append(("C04:balance", f"order {n}: {ones} ones per period, required {1 << (n-1)}"))
+        zeros = b[:N].count("0")
+        if zeros != (1 << (n - 1)) - 1 or ones + zeros != N:
+            v.append(("C04:balance-zeros", f"order {n}: {zeros} zeros and {ones} ones in a period of {N} (theorem zeros_per_period: "
+                                           f"{(1 << (n-1)) - 1} zeros, nothing but bits)"))
     return v
 
 
